@@ -449,18 +449,18 @@ def cli_outputs(files, main, hashseed):
             for name, text in files.items():
                 p = os.path.join(base, name)
                 os.makedirs(os.path.dirname(p), exist_ok=True)
-                with open(p, "w") as f:
+                with open(p, "w", encoding="utf-8", newline="") as f:  # CR LF in a text stays CR LF on disk
                     f.write(text)
         env = dict(os.environ, PYTHONPATH=emb.REPO, PYTHONHASHSEED=str(hashseed))
         py = sys.executable
         outs = []
-        for dirs in ((d1, d2), (d2, d1)):
+        for dirs in ((d1, d2), (d2, d1), (d1,)):
             args = []
             for x in dirs:
                 args += ["--import-dir", x]
             c = subprocess.run([py, os.path.join(emb.REPO, "embossc")] + args + ["--output-path", d, "--output-file", "one.h", main], cwd=d, env=env, capture_output=True, text=True, timeout=600)
             h = open(os.path.join(d, "one.h")).read() if c.returncode == 0 and os.path.exists(os.path.join(d, "one.h")) else None
-            outs.append((c.returncode, c.stderr.replace(d1, "<I>").replace(d2, "<I>"), h))
+            outs.append((c.returncode, c.stderr.replace(d1, "<I>").replace(d2, "<I>").replace("<I>:<I>", "<I>"), h))
             if os.path.exists(os.path.join(d, "one.h")):
                 os.remove(os.path.join(d, "one.h"))
         a = subprocess.run([py, "-m", "compiler.front_end.emboss_front_end", "--import-dir", d1, "--output-file", os.path.join(d, "ir.json"), main], cwd=d, env=env, capture_output=True, text=True, timeout=600)
@@ -471,7 +471,7 @@ def cli_outputs(files, main, hashseed):
             b = subprocess.run([py, "-m", "compiler.back_end.cpp.emboss_codegen_cpp", "--input-file", os.path.join(d, "ir.json"), "--output-file", os.path.join(d, "two.h")], cwd=d, env=env, capture_output=True, text=True, timeout=600)
             h2 = open(os.path.join(d, "two.h")).read() if b.returncode == 0 else None
             back = (b.returncode, b.stderr.replace(d1, "<I>"))
-        return {"embossc": outs[0], "embossc_swapped_dirs": outs[1], "two_program": (a.returncode, a.stderr.replace(d1, "<I>"), h2), "two_program_back_end": back, "ir_json": irj}
+        return {"embossc": outs[0], "embossc_swapped_dirs": outs[1], "embossc_single_dir": outs[2], "two_program": (a.returncode, a.stderr.replace(d1, "<I>"), h2), "two_program_back_end": back, "ir_json": irj}
     finally:
         shutil.rmtree(d, ignore_errors=True)
 
@@ -482,6 +482,13 @@ BACK_END_REJECTED = [
     ({"m.emb": 'import "lib.emb" as lib\n[$default byte_order: "LittleEndian"]\n[(cpp) namespace: "okay::ns"]\nstruct Foo:\n  0 [+1]  lib.Kind  k\n', "lib.emb": '# a library\n\n[(cpp) namespace: "demo::switch::kinds"]\nenum Kind:\n  AA = 1\n'}, "m.emb"),
     ({"m.emb": 'import "lib.emb" as lib\n[$default byte_order: "LittleEndian"]\nstruct Foo:\n  0 [+1]  lib.Kind  k\n', "lib.emb": '[(cpp) $default enum_case: "SHOUTY_CASE, , kCamelCase"]\nenum Kind:\n  AA = 1\n'}, "m.emb"),
     ({"m.emb": '[$default byte_order: "LittleEndian"]\n[(cpp) namespace: "a::class::b"]\nstruct Foo:\n  0 [+1]  UInt  k\n'}, "m.emb"),
+]
+
+
+# identical files behind two import dirs, whose size in bytes is not their length in characters
+ENCODING_SETS = [
+    ({"m.emb": '-- d\u00e9lai en \u00b5s\nimport "i.emb" as i\n[$default byte_order: "LittleEndian"]\nstruct Foo:\n  -- \u00b5s \u2713\n  0 [+1]  UInt  x\n  1 [+1]  i.Bar  y\n', "i.emb": "struct Bar:\r\n  0 [+1]  UInt  z\r\n"}, "m.emb"),
+    ({"m.emb": 'import "i.emb" as i\r\n[$default byte_order: "LittleEndian"]\r\nstruct Foo:\r\n  0 [+1]  UInt  x\r\n  1 [+1]  i.Bar  y\r\n  2 [+1]  Nope  w\r\n', "i.emb": "-- \u00b5\nstruct Bar:\n  0 [+1]  UInt  z\n"}, "m.emb"),
 ]
 
 
@@ -581,7 +588,7 @@ def run(ctx):
     import multiprocessing as mp
 
     rnd = random.Random(ctx.seed)
-    cli_sets = [sets[0], sets[1]] + BACK_END_REJECTED + [sets[i] for i in rnd.sample(range(len(sets)), ctx.pick(2, 10))]
+    cli_sets = [sets[0], sets[1]] + ENCODING_SETS + BACK_END_REJECTED + [sets[i] for i in rnd.sample(range(len(sets)), ctx.pick(2, 10))]
     jobs = [(f, m, hs) for (f, m) in cli_sets for hs in (0, 3)]
     with mp.get_context("fork").Pool(min(16, len(jobs))) as pool:
         outs = pool.map(_cli_job, jobs)
@@ -597,6 +604,10 @@ def run(ctx):
         for o in (a, b):
             if o["embossc"] != o["embossc_swapped_dirs"]:
                 stats.fail({"kind": "cli-import-dir-order"}, {"files": files, "main": main}, "embossc output depends on the order of import dirs holding identical files")
+            if o["embossc"] != o["embossc_single_dir"]:
+                k_ = [i_ for i_ in range(3) if o["embossc"][i_] != o["embossc_single_dir"][i_]][0]
+                x, y = _first_diff(str(o["embossc_single_dir"][k_]), str(o["embossc"][k_]))
+                stats.fail({"kind": "cli-import-dir-multiplicity", "what": ["exit-status", "diagnostics", "header"][k_]}, {"files": files, "main": main}, "embossc output differs between one import dir and two import dirs listing identical files\none dir:  %r\ntwo dirs: %r" % (x, y))
             if o["embossc"][0] == 0 and (o["two_program"][2] != o["embossc"][2]):
                 stats.fail({"kind": "cli-one-vs-two-process"}, {"files": files, "main": main}, "header from embossc differs from emboss_front_end | emboss_codegen_cpp")
             # a source set that only the back end rejects: both routes print the same diagnostics
